@@ -8,5 +8,15 @@ CLAIMED = {
   "note": "Trusts: Coq kernel + vm_compute; translator (table read by compiling a probe that includes crc16.c); the 3-line loop is hand-modelled and tied by correspondence (all 2^16 states x 8 (quick) / 256 (thorough) byte values, thousands of buffers with splits and alignments) against the ASan build.",
   "technique": "Coq proof (finite sweep lifted + induction) over regenerated table; differential run model vs C",
  },
+ "C14": {
+  "text": "Theorems reads_are_one_read / split_invariant / length_and_crc_faithful / stops_at_declared_length / read_at_most_asked over the model of lha_decoder_read (Decoder.v) for ANY inner decoder that returns chunks <= max_read: every read schedule (zeros included) returns in pieces exactly what one read of the total returns and ends in the same state; output never exceeds the declared length and nothing is decoded past it; get_length/get_crc are the length and CRC-16/ARC (via C17) of the bytes returned; no fault, no fuel exhaustion. Closed under the global context. The progress-callback clause is decided by the direct oracle and the correspondence only (no theorem yet).",
+  "note": "Hand model tied by correspondence on the modelled methods and by C-only oracles (split invariance across schedules, length, independent CRC, <= declared, <= asked, exact progress sequence) on all 14 method names; read sizes < 2^62; callback returns <= requested bytes.",
+  "technique": "Coq proof (big-step characterisation of the fill loop + composition of reads); differential run model vs C; C-only API oracles",
+ },
+ "C09": {
+  "text": "Theorems: tree_decode.c build_tree never leaves its arrays, terminates and keeps the tree 'closed' for EVERY code-length vector and every prior tree state (uint16 and uint8 elements); read_from_tree on a closed tree stays in bounds, moves strictly forward and ends within tree_len steps for any input bits; lha_decoder_read never faults and never returns more than asked for any inner decoder. Per-decoder never-fault theorems (null, lz5, lzs, bit reader) are added as they are completed; lh_new/lh1/pm1/pm2 bodies are so far covered by the tree theorems, the correspondence and the sanitizer oracle only.",
+  "note": "Array extents and table sizes regenerated from the C on every run; out-of-bounds accesses that land in valid memory are invisible to the sanitizer oracle and are covered only where a theorem exists.",
+  "technique": "Coq proof of array-bounds invariants (closed-tree invariant, loop measures); grammar-aimed differential run against an ASan+bounds+null build",
+ },
 }
 NOT_APPLICABLE = {("C%02d" % i): _PENDING for i in range(1, 21) if ("C%02d" % i) not in CLAIMED}
